@@ -115,7 +115,7 @@ def dop(d) -> str:
         return f"(simple (dct {dct(d.dct)}) (phys {d.phys}) (compu {compu(d.compu)}))"
     if isinstance(d, D.DtcDop):
         return (f"(dtc (dct {dct(d.dct)}) (phys {d.phys}) (compu {compu(d.compu)}) (dtcs"
-                + "".join(f" ({c} {n})" for c, n in d.dtcs) + "))")
+                + "".join(f" ({c} {n})" for c, n in D.effective_dtcs(d)) + "))")
     if isinstance(d, D.Struct):
         bs = f" (bytesize {d.bytesize})" if d.bytesize is not None else ""
         return f"(struct{bs} (params{''.join(' ' + param(p) for p in d.params)}))"
